@@ -552,6 +552,148 @@ def decode_stat(ev):
     return "%s => %s" % (kind, ret if ret.startswith("err") or ret == "ok" else ret.split(":")[0])
 
 
+# =========================================================================== C17
+def split_threads(evs):
+    """events of a "threads" command -> one trace per instance (each starts with "new"), then the digests of replicas"""
+    out = []
+    for e in evs:
+        if e.get("op") != "threads":
+            out.append(e)
+            continue
+        for inst in e["evs"]:
+            for x in inst:
+                x["ci"] = e.get("ci")
+                out.append(x)
+        groups = [[[x["digest"] for x in e["evs"][i]] for i in g] for g in e["groups"]]
+        out.append({"op": "replicas", "groups": groups, "mode": e.get("mode", ""), "ci": e.get("ci"), "ret": e["ret"]})
+    return out
+
+
+@plan("C17")
+def c17(tier, seed):
+    run = Run("C17", tier, seed)
+    rng = random.Random(seed)
+    # (a) the model: Independence and Determinism over all interleavings of 3 instances x 3 calls
+    r = run_gen_bfs(run, "MCInstances", "MCInstances")
+    orders = [[i - 1 for i in g["order"]] for g in r]
+    # programs of the three instances (instances 0 and 1 are replicas): I P D / I P D / I R P
+    def programs():
+        w, h, ver = rng.choice([(16, 16), (32, 16), (17, 9)]), None, rng.randrange(2)
+        w, h = w
+        ipic = pg.intra_picture(rng, sor_hdr(rng, "I", 0, w, h, ver), big=False)
+        ppic = pg.inter_picture(rng, sor_hdr(rng, "P", 1, w, h, ver), big=False)
+        dpic = pg.inter_picture(rng, sor_hdr(rng, "D", 2, w, h, ver), pt="D", big=False)
+        p2 = pg.inter_picture(rng, sor_hdr(rng, "P", 7, w, h, ver), big=False)
+        a = [("I", ipic), ("P", ppic), ("D", dpic)]
+        c = [("I", pg.intra_picture(rng, sor_hdr(rng, "I", 5, w, h, ver), big=False)), ("R", None), ("P", p2)]
+        return [a, a, c]
+    # encode a pool of program sets
+    pools = [programs() for _ in range(6 if tier == "quick" else 40)]
+    flat = []
+    for pi, progs in enumerate(pools):
+        for ii, prog in enumerate(progs):
+            for k, (t, pic) in enumerate(prog):
+                if pic is not None:
+                    flat.append({"op": "decode", "d": 0, "pic": pic, "pool": pi, "inst": ii, "k": k})
+    enc = run.encode(flat)
+    byk = {(c["pool"], c["inst"], c["k"]): c for c in enc}
+
+    def inst_cmds(pi, ii):
+        out = [{"op": "new", "d": 0, "sor": True}]
+        for k, (t, pic) in enumerate(pools[pi][ii]):
+            out.append({"op": "newreader", "d": 0})
+            if pic is None:
+                out.append({"op": "decode", "d": 0, "bytes": GARBAGE[0], "why": "garbage"})
+            else:
+                c = byk[(pi, ii, k)]
+                out.append({"op": "decode", "d": 0, "pic": c["pic"], "bytes": c["bytes"]})
+        return out
+    cmds = []
+    # (b) every interleaving TLC produced, forced by a turnstile.  A call = newreader + decode (2 driver ops) after "new"
+    if tier == "quick":
+        rng.shuffle(orders)
+        sel = orders[:420]
+    else:
+        sel = orders
+    for oi, order in enumerate(sel):
+        pi = oi % len(pools)
+        # expand the model's call order into driver-op order: "new" of each instance first, then 2 ops per call
+        dorder = [0, 1, 2] + [i for i in order for _ in range(2)]
+        cmds.append({"op": "threads", "insts": [inst_cmds(pi, 0), inst_cmds(pi, 1), inst_cmds(pi, 2)], "order": dorder,
+                     "groups": [[0, 1]], "mode": "turnstile", "h": len(cmds)})
+    # (c) free-running threads: 16 instances, replicas of 4 histories, repeated
+    for rep in range(12 if tier == "quick" else 200):
+        pi = rep % len(pools)
+        insts = [inst_cmds(pi, (k % 4) if (k % 4) < 3 else 0) for k in range(16)]
+        groups = [[k for k in range(16) if (k % 4 if k % 4 < 3 else 0) == gsel] for gsel in range(3)]
+        groups = [[k for k in range(16) if (k % 4) in (0, 1, 3)], [k for k in range(16) if k % 4 == 2]]
+        cmds.append({"op": "threads", "insts": insts, "groups": groups, "mode": "free-running", "h": len(cmds)})
+    # fresh processes between repetitions: one driver process per shard, many shards
+    run.drive_and_validate(cmds, "TraceDecoder", nshards=32 if tier == "quick" else 64, post_fn=split_threads, sample=1)
+    run.evaluations = len(cmds)
+    run.nontrivial = len(sel) + 1
+    run.notes["interleavings_forced"] = len(sel)
+    run.notes["interleavings_in_model"] = len(orders)
+    run.assumptions = ["TLA+ models call-level interleavings; instruction-level data races are excluded by construction: the three "
+                       "crates contain no unsafe code and no static mut, and decoder objects are not shared between threads"]
+    return run.finish(
+        rule="model: all interleavings of 3 instances x 3 calls (MCInstances: Independence, Determinism, ReplicasAgree); "
+             "implementation: %d of the %d call orders TLC exported are forced on real threads by a turnstile (all of them in "
+             "thorough), plus free-running runs of 16 threads (replicas of the same histories, valid and invalid inputs) in "
+             "separate driver processes; every instance's trace is validated on its own in pixel mode against the decoder model "
+             "and replicas must have identical digests of every observation" % (len(sel), len(orders)))
+
+
+# =========================================================================== C13
+@plan("C13")
+def c13(tier, seed):
+    run = Run("C13", tier, seed)
+    rng = random.Random(seed)
+    run.model_check("MCPipeline", workers=8)
+    H = Hist()
+    wmax, hmax = (40, 40) if tier == "quick" else (100, 100)
+    sizes = [(w, h) for w in range(1, wmax + 1) for h in range(1, hmax + 1)]
+    if tier == "quick":      # every width and every height, all small sizes, and a pseudo-random half of the rest
+        sizes = [(w, h) for (w, h) in sizes if w <= 12 or h <= 12 or (w * 7 + h * 13 + seed) % 4 == 0]
+    else:
+        sizes = [(w, h) for (w, h) in sizes if w <= 24 or h <= 24 or (w * 7 + h * 13 + seed) % 5 == 0]
+    q = 0
+    for (w, h) in sizes:
+        q = q % 31 + 1
+        H.new()
+        hdr = pg.header("sor", "I", tr=q, q=q, w=w, h=h, ver=(w + h) % 2)
+        pic = pg.intra_picture(rng, hdr, big=False, shape="sparse", dquant=False)
+        H.decode(pic)
+        if w * h <= 24 * 24:
+            H.op("post", full=True)
+        else:
+            H.op("post")
+        # a predicted picture on top (other quantizer), then post-process again
+        if (w + h) % 3 == 0:
+            q2 = (q + 11) % 31 + 1
+            H.decode(pg.inter_picture(rng, pg.header("sor", "P", tr=0, q=q2, w=w, h=h, ver=(w + h) % 2), big=False, shape="sparse",
+                                      mix=[2, 5, 0, 2, 1, 0, 0]))
+            H.op("post", **({"full": True} if w * h <= 24 * 24 else {}))
+    # standard sizes of the Sorenson header
+    for sc in ([4] if tier == "quick" else [2, 3, 4, 5, 6]):
+        H.new()
+        H.decode(pg.intra_picture(rng, sor_hdr(rng, "I", 2, 0, 0, 1, sc=sc), big=False, shape="one"))
+        H.op("post")
+    npics = sum(1 for c in H.cmds if c["op"] == "post")
+    enc = run.encode(H.cmds)
+    run.drive_and_validate(enc, "TraceDecoder", group=hkey, sample=2, also=["TracePost"])
+    run.evaluations = npics
+    run.nontrivial = len(sizes)
+    run.notes["post_processed_pictures"] = npics
+    run.assumptions = ["debug assertions are enabled in the harness build, so the documented preconditions of deblock() and yuv420_to_rgba() are checked at run time"]
+    return run.finish(
+        rule="picture sizes: every (w,h) with w<=12 or h<=12 and a quarter of the remaining sizes up to %dx%d (so every width and "
+             "every height occurs; 1-row, 1-column, odd and <10-wide sizes all included), quantizer cycling through 1..31, intra "
+             "pictures and predicted pictures on top; each decoded picture is validated in pixel mode (TraceDecoder) and then "
+             "deblocked per plane with the tabulated strength and converted; TLC checks plane shapes, strength, output length, "
+             "absence of panics, and for sizes <= 24x24 every RGBA pixel = Yuv o Deblock of the decoded planes" % (wmax, hmax))
+
+
 # =========================================================================== C01
 def mutate(rng, b):
     """corruptions of a valid encoded picture"""
@@ -953,4 +1095,4 @@ def replay(pid, path, seed):
 
 
 REPLAY_MODULE = {"C07": "TraceYuv", "C08": "TraceYuv", "C09": "TraceDeblock", "C16": "TraceDeblock", "C14": "TraceBitReader", "C02": "TraceDecoder", "C03": "TraceDecoder", "C04": "TraceDecoder", "C05": "TraceDecoder", "C15": "TraceDecoder",
-                 "C01": "TraceDecoder", "C17": "TraceDecoder", "C11": "TraceDecoder"}
+                 "C01": "TraceDecoder", "C17": "TraceDecoder", "C11": "TraceDecoder", "C13": "TraceDecoder"}
